@@ -148,6 +148,33 @@ def event_world(seed, twins=True):
                 w.make_read(chrom, [e0, e1, e2, e3, rm], truth={"src": gid + ".t1", "class": "misplaced-terminal-exon-right"})
                 w.make_read(chrom, [lm, e1, e2, e3, rm], truth={"src": gid + ".t1", "class": "misplaced-terminal-exon-both"})
             pos = pos + 8100 + rng.randint(2500, 3500)
+    # three-exon genes with a 24-44 bp middle exon; reads that skip it and whose one outer site lies 3-5 bp inside the neighbouring exon
+    # (the short-read based rule "one long intron = two short-read introns around a micro-exon" needs one of the outer sites to differ);
+    # eight loci per sequence, because the rule walks a SET of short-read introns in hash order
+    for ci, chrom in enumerate(w.chrom_order):
+        p0 = max([g.end for g in w.genes if g.chrom == chrom] + [1000]) + 2500
+        for k in range(8):
+            if p0 + 3000 > w.chrom_len(chrom) - 8000:
+                break
+            strand = "+-"[k % 2]
+            Lm = rng.randint(24, 44)
+            e1 = (p0, p0 + rng.randint(250, 350))
+            e2 = (e1[1] + rng.randint(300, 700), 0)
+            e2 = (e2[0], e2[0] + Lm - 1)
+            e3 = (e2[1] + rng.randint(300, 700), 0)
+            e3 = (e3[0], e3[0] + rng.randint(250, 350))
+            gid = "MX%d_%d" % (ci + 1, k + 1)
+            g = Gene(gid, chrom, strand)
+            g.transcripts.append(Transcript(gid + ".t1", gid, chrom, strand, [e1, e2, e3], True, "micro-exon"))
+            for intr in g.transcripts[0].introns:
+                w.plant_sites(chrom, intr, strand)
+            w.genes.append(g)
+            off = rng.choice((3, 4, 5))
+            for q in range(2):
+                w.make_read(chrom, [e1, e2, e3], truth={"src": gid + ".t1", "class": "exact"})
+                w.make_read(chrom, [(e1[0] + 5 * q, e1[1] - off), (e3[0], e3[1] - 3 * q)], truth={"src": gid + ".t1", "class": "skipped-micro-exon-left-site-off"})
+                w.make_read(chrom, [(e1[0] + 5 * q, e1[1]), (e3[0] + off, e3[1] - 3 * q)], truth={"src": gid + ".t1", "class": "skipped-micro-exon-right-site-off"})
+            p0 = e3[1] + rng.randint(2500, 3500)
     # a gene whose two isoforms have OVERLAPPING introns (alternative donor in one, alternative acceptor in the other: 401..906 and 901..1400
     # relative to the locus) and reads with a spurious 6-bp exon between two introns, each within the tolerance of one of them; an insertion
     # (or three mismatching bases) inside the tiny exon makes both sites move
